@@ -184,13 +184,14 @@ func mergeASAACLs(ab *cmdsPair, name, prefix string) {
 	if len(appendACL) > 0 {
 		// Add ACL lines marked with [APPEND] behind last permit line.
 		// Find last permit line within entries from Netspoc.
+		// Add behind prepended lines if no permit line was found.
+		n := len(prependACL)
 		i := len(acl) - 1
-		for ; i >= 0; i-- {
+		for ; i >= n; i-- {
 			if strings.Contains(acl[i].parsed, "$NAME extended permit") {
 				break
 			}
 		}
-		// Add at beginning if no permit line was found.
 		i++
 		acl = append(acl[:i], append(appendACL, acl[i:]...)...)
 	}
@@ -220,13 +221,14 @@ func mergeIOSACLs(ab *cmdsPair, name, prefix string) {
 	if len(appendACL) > 0 {
 		// Add ACL lines marked with [APPEND] behind last permit line.
 		// Find last permit line within entries from Netspoc.
+		// Add behind prepended lines if no permit line was found.
+		n := len(prependACL)
 		i := len(acl) - 1
-		for ; i >= 0; i-- {
+		for ; i >= n; i-- {
 			if strings.HasPrefix(acl[i].parsed, "permit ") {
 				break
 			}
 		}
-		// Add at beginning if no permit line was found.
 		i++
 		acl = append(acl[:i], append(appendACL, acl[i:]...)...)
 	}
